@@ -77,9 +77,37 @@ Proof.
     destruct (truthy_fld (p_typ p)); reflexivity.
 Qed.
 
+(* emit_param_str works on a copy of the param: the caller's param comes back as it was *)
+Lemma emit_param_str_pure : forall w name p st ed et ww edd t p',
+    emit_param_str w name p st ed et ww edd = Ok (t, p') -> p' = p.
+Proof.
+  intros w name p st ed et ww edd t p' H. unfold emit_param_str in H. destruct st.
+  - destruct (rest_raw_lines name p ed et edd) as [lp|e]; [|discriminate]. cbn [bind] in H.
+    destruct (mapM (fill_or_id ww w) (fst lp)) as [f|e]; [|discriminate]. cbn [bind] in H. now inversion H.
+  - repeat match type of H with
+           | bind ?x _ = _ => destruct x; [cbn [bind] in H|discriminate]
+           end.
+    now inversion H.
+  - repeat match type of H with
+           | bind ?x _ = _ => destruct x; [cbn [bind] in H|discriminate]
+           end.
+    now inversion H.
+Qed.
+
+Lemma emit_items_pure : forall {A} (f : str -> param -> outcome (A * param)) ps xs ps',
+    (forall k p t p', f k p = Ok (t, p') -> p' = p) ->
+    emit_items f ps = Ok (xs, ps') -> ps' = ps.
+Proof.
+  intros A f ps. induction ps as [|[k p] r IH]; intros xs ps' Hf H.
+  - cbn [emit_items] in H. now inversion H.
+  - cbn [emit_items] in H. destruct (f k p) as [[t p1]|e] eqn:E1; [|discriminate]. cbn [bind fst snd] in H.
+    destruct (emit_items f r) as [[ts r1]|e] eqn:E2; [|discriminate]. cbn [bind fst snd] in H.
+    inversion H; subst. rewrite (Hf k p t p1 E1). now rewrite (IH ts r1 Hf eq_refl).
+Qed.
+
 Lemma emit_param_str_rest_off : forall w name p edd,
     emit_param_str w name p Rest true true false edd =
-    do bp <- rest_block_of edd name p; Ok (rest_entry_text (fst bp), snd bp).
+    do bp <- rest_block_of edd name p; Ok (rest_entry_text (fst bp), p).
 Proof.
   intros w name p edd. unfold emit_param_str. rewrite rest_raw_lines_block.
   destruct (rest_block_of edd name p) as [[b p']|e]; [|reflexivity].
@@ -88,7 +116,7 @@ Qed.
 
 Lemma emit_items_rest_off : forall w edd ps,
     emit_items (fun k p => emit_param_str w k p Rest true true false edd) ps =
-    do r <- emit_items (rest_block_of edd) ps; Ok (map rest_entry_text (fst r), snd r).
+    do r <- emit_items (rest_block_of edd) ps; Ok (map rest_entry_text (fst r), ps).
 Proof.
   intros w edd ps. induction ps as [|[k p] r IH]; [reflexivity|].
   cbn [emit_items]. rewrite emit_param_str_rest_off.
@@ -290,6 +318,33 @@ Proof.
   destruct (params_of (ir_params i)) as [ps|]; [|discriminate].
   match type of H with context [match ?x with Some _ => _ | None => _ end] => destruct x as [ret|] end;
     [|discriminate].
+  repeat match type of H with
+         | bind ?x _ = _ => destruct x; [cbn [bind] in H|discriminate]
+         end.
+  now inversion H.
+Qed.
+
+(* ------------------------------------------------------------------ *)
+(* emit.docstring leaves the caller's IR as it was                       *)
+(* ------------------------------------------------------------------ *)
+
+(* plain form of the premise [doc_pure] of props/C13.v (proofs/DocEmitPure.v states it in that shape) *)
+Theorem emit_docstring_pure : forall w st ww edd i t i',
+    emit_docstring w st ww edd i = Ok (t, i') -> i' = i.
+Proof.
+  intros w st ww edd i t i' H. unfold emit_docstring in H.
+  destruct (params_of (ir_params i)) as [ps|]; [|discriminate].
+  repeat match type of H with
+         | bind ?x _ = _ => destruct x; [cbn [bind] in H|discriminate]
+         end.
+  now inversion H.
+Qed.
+
+Lemma rest_blocks_of_ir_pure : forall edd i d bs rb i',
+    rest_blocks_of_ir edd i = Ok (d, bs, rb, i') -> i' = i.
+Proof.
+  intros edd i d bs rb i' H. unfold rest_blocks_of_ir in H.
+  destruct (params_of (ir_params i)) as [ps|]; [|discriminate].
   repeat match type of H with
          | bind ?x _ = _ => destruct x; [cbn [bind] in H|discriminate]
          end.
